@@ -4,6 +4,7 @@ import (
 	"fmt"
 	"go/token"
 	"go/types"
+	"os"
 	"sort"
 	"strings"
 
@@ -188,7 +189,18 @@ func c04ProvisionedPointers(c *Ctx, r *Report, rule string) {
 		pos := c.ipos(uses[k][0])
 		ss := stores[k]
 		if len(ss) == 0 {
-			r.bad(rule, fname(ufn), name, pos, "the field is dereferenced per connection but never assigned in the module")
+			// no direct store: the field may be assigned through its address (a table of pointers to fields filled
+			// in a loop). The methods of the type that take the address are evaluated: on every path that returns
+			// without error the field holds a value that is known not to be nil.
+			how, problem := c04AssignedThroughAddress(c, k.sn, k.f, reach)
+			if os.Getenv("L4DEBUG") == "c04addr" {
+				fmt.Println("    c04addr", name, "|", how, "|", problem)
+			}
+			if how == "" && problem == "" {
+				r.bad(rule, fname(ufn), name, pos, "the field is dereferenced per connection but never assigned in the module")
+				continue
+			}
+			r.check(problem == "", rule, fname(ufn), name, pos, how, "a method is called on "+name+" per connection without a nil test, but the field can be nil: "+problem+" - the call panics in the connection's goroutine")
 			continue
 		}
 		var problems []string
@@ -292,4 +304,97 @@ func onNonNilEdge(b *ssa.BasicBlock, v ssa.Value) bool {
 		b = p
 	}
 	return false
+}
+
+// c04AssignedThroughAddress: the set-up methods of struct sn that take the address of field f other than for a direct
+// load or store are evaluated (path evaluation; foreign constructors returning (value, error) answer both ways): at
+// every error-free return the receiver's field must hold a known non-nil value.
+func c04AssignedThroughAddress(c *Ctx, sn, f string, perConn map[*ssa.Function]bool) (how, problem string) {
+	var fns []*ssa.Function
+	for _, fn := range c.Funcs {
+		if perConn[fn] || fn.Signature.Recv() == nil || len(fn.Params) == 0 {
+			continue
+		}
+		takes := false
+		for _, b := range fn.Blocks {
+			for _, in := range b.Instrs {
+				fa, ok := in.(*ssa.FieldAddr)
+				if !ok || fa.X != ssa.Value(fn.Params[0]) {
+					continue
+				}
+				if _, s2, f2, ok := fieldAddr(fa); !ok || s2 != sn || f2 != f {
+					continue
+				}
+				for _, ref := range *fa.Referrers() {
+					switch x := ref.(type) {
+					case *ssa.UnOp, *ssa.DebugRef:
+					case *ssa.Store:
+						if x.Val == ssa.Value(fa) {
+							takes = true // the address itself is stored somewhere
+						}
+					default:
+						takes = true
+					}
+				}
+			}
+		}
+		if takes {
+			fns = append(fns, fn)
+		}
+	}
+	if len(fns) == 0 {
+		return "", ""
+	}
+	for _, fn := range fns {
+		sc := &Scenario{Name: "assigned through its address", MaxVisit: 8, MaxPaths: 4000, ZeroRecv: true,
+			Heap: map[string]SV{"recv." + f: symNil()}}
+		sc.Alts = func(callee string, args []SV, ev *symEval, st *symState) []CallAlt {
+			if strings.HasPrefix(callee, "invoke ") || strings.HasPrefix(callee, "builtin ") || strings.HasPrefix(callee, modPath) || strings.Contains(callee, modPath+"/") {
+				return nil
+			}
+			if callee == "regexp.Compile" {
+				return []CallAlt{
+					{Ret: SV{K: "tuple", Desc: "ok", Elems: []SV{symRef(ev.fresh("compiled"), false), symNil()}}, Note: "ok"},
+					{Ret: SV{K: "tuple", Desc: "err", Elems: []SV{symNil(), {K: "ref", Known: true, Desc: "compileErr"}}}, Note: "err"},
+				}
+			}
+			return nil
+		}
+		paths, err := evalPaths(fn, sc)
+		if err != nil || len(paths) == 0 {
+			return "path evaluation of " + fname(fn), fmt.Sprintf("undecided: %s could not be evaluated (%v)", fname(fn), err)
+		}
+		okPaths := 0
+		for _, p := range paths {
+			if p.Outcome == "cutoff" {
+				return "path evaluation of " + fname(fn), "undecided: exploration bound reached in " + fname(fn)
+			}
+			if len(p.Ret) == 0 {
+				continue
+			}
+			last := p.Ret[len(p.Ret)-1]
+			if !(last.K == "ref" && last.Known && last.Nil) {
+				continue
+			}
+			okPaths++
+			v, has := p.Heap["recv."+f]
+			if !has || !(v.K == "ref" && v.Known && !v.Nil) {
+				return "path evaluation of " + fname(fn), fmt.Sprintf("%s can return without error with the field still %s (path %s)", fname(fn), describeSV(v, has), altNotes(p))
+			}
+		}
+		if okPaths > 0 {
+			return fmt.Sprintf("assigned through its address in %s: %d error-free paths evaluated, the field is non-nil at the end of each", fname(fn), okPaths), ""
+		}
+	}
+	return "path evaluation", "undecided: no error-free path found in the methods that take the field's address"
+}
+
+func describeSV(v SV, has bool) string {
+	if !has {
+		return "unset"
+	}
+	if v.K == "ref" && v.Known && v.Nil {
+		return "nil"
+	}
+	return "of unknown value (" + v.K + " " + v.Desc + ")"
 }
